@@ -106,6 +106,7 @@ Definition finished_closed (g : cfg) (i : nat) (c : conn) (q : list ev) : option
 (* the TCP socket emitted disconnected(): relayed as Socket::disconnected (stops a live copier), then the
    server's connection posts the deletion of the HTTP socket *)
 Definition on_disc (g : cfg) (i : nat) (c : conn) (q : list ev) : option (conn * list ev) :=
+  let c := set_topen false (set_disc true c) in
   match (if copier_alive c then finished_closed g i c q else Some (c, q)) with
   | None => None
   | Some (c1, q1) => Some (c1, enq (EvDelH i) q1)
@@ -159,10 +160,10 @@ Definition feed (g : cfg) (i : nat) (n : Z) (c : conn) (q : list ev) : option (c
 Definition ack (g : cfg) (i : nat) (c : conn) (q : list ev) : option (conn * list ev) :=
   if negb (h c) then Some (c, q) else
   let c := set_unacked false c in
-  if tclosing c && negb (disc c) then on_disc g i (set_disc true c) q else Some (c, q).
+  if tclosing c && negb (disc c) then on_disc g i c q else Some (c, q).
 
 Definition drop (g : cfg) (i : nat) (c : conn) (q : list ev) : option (conn * list ev) :=
-  if negb (h c) || disc c then Some (c, q) else on_disc g i (set_topen false (set_disc true c)) q.
+  if negb (h c) || disc c then Some (c, q) else on_disc g i c q.
 
 Definition app_close (g : cfg) (i : nat) (c : conn) (q : list ev) : option (conn * list ev) :=
   if negb (h c) then Some (c, q) else
